@@ -273,6 +273,7 @@ def run(ctx):
     modified_lines_one_write_per_line(ctx, "R12-e")
     diff_sees_whole_texts(ctx, "R12-f")
     reader_reads_the_text_as_written(ctx, "R12-g")
+    running_totals_advance_every_round(ctx, "R12-h")
 
 
 def name_root(fn, op, depth=0):
@@ -498,3 +499,54 @@ def reader_reads_the_text_as_written(ctx, rid):
                         "the lines are taken from %s, not from the parameter itself: blank added lines at the ends of the report are "
                         "lost and the chunk headers no longer match" % short(key)[:80], [c.loc()])
     r.floor(rid, n, 1, "line splits of the parameter in ModifiedLines::from_str")
+
+
+def running_totals_advance_every_round(ctx, rid):
+    """R12-h: the original text the reports compare against is rebuilt with a running total that never goes stale"""
+    from common import natural_loops
+    p, r = ctx.p, ctx.r
+    r.rule(rid, "ParseSess::get_original_snippet rebuilds the text as it was read (every `\\r` rustc dropped is put back) by "
+                "walking SourceFile::normalized_pos, whose `diff` field is *cumulative*; the function keeps the previous value in a "
+                "local and looks at the increase.  That local is assigned from the element's `diff` on every path round the loop — "
+                "also on the path that skips an entry (the byte order mark): otherwise every later increase is measured from a stale "
+                "total, no `\\r` is restored, and `--check` reports a BOM + CRLF file that is already formatted (or the line "
+                "numbers of a report shift)")
+    f = p.named("get_original_snippet", within="parse::session::ParseSess")
+    if f is None:
+        r.undecidable(rid, "ParseSess::get_original_snippet not found")
+        return
+    n = 0
+    for h, body in natural_loops(f):
+        defs = f.defs()
+        for l, ds in defs.items():
+            inside = [d for d in ds if d[0] in body and d[1] == "assign"]
+            outside = [d for d in ds if d[0] not in body]
+            if not inside or not outside or l == 0:
+                continue
+            tracks = False
+            for d in inside:
+                rv = d[2][2]
+                srcs = [op for op in ([rv[1]] if rv[0] == "use" else []) if op[0] != "k"]
+                for op in srcs:
+                    fl = [e for e in op[1][1] if isinstance(e, list) and e[0] == "f"]
+                    dd = f.derived_from(op[1][0]) if not fl else {"fields": []}
+                    if any(str(e[4]) == "diff" for e in fl) or any(str(x[2]) == "diff" for x in dd["fields"]):
+                        tracks = True
+            if not tracks:
+                continue
+            n += 1
+            def_blocks = {d[0] for d in inside}
+            back = [b for b in body if h in f.succ(b)]
+            reach = set()
+            for s0 in f.succ(h):
+                if s0 in body:
+                    reach |= f.reachable(s0, avoid_blocks=def_blocks, stop_blocks=[h])
+            stale = [b for b in back if b in reach and b not in def_blocks]
+            name = f.local_names.get(l, "a local")
+            r.instance(rid, "get_original_snippet: `%s` follows normalized_pos.diff" % name, "violation" if stale else "ok",
+                       "%s:%d" % (f.file, f.line), "%d assignments in the loop" % len(inside))
+            if stale:
+                r.violation(rid, "get_original_snippet: the running total `%s` is not advanced on every path round the loop" % name,
+                            "there is a way back to the loop head that does not assign it from the element's cumulative `diff`: "
+                            "after a skipped entry every later increase is computed against a stale total", ["%s:%d" % (f.file, f.line)])
+    r.floor(rid, n, 1, "running totals over normalized_pos.diff in get_original_snippet")
